@@ -4,6 +4,7 @@
 //!   inputs  <lz10|lz13> <cases.ndjson>        input families for C08/C09 (exhaustive small + structured, seeded)
 //!   comp    <cases> <out> [--from k]          isolated: compress + own decompress, one "comp" event per case
 //!   size    <out.ndjson>                      C10: sizes of compressed periodic / small inputs ("size" events)
+//!   sizeone <fmt> <p> <pk> <n> <out.ndjson>   C10: one periodic size event again (replay)
 //!   deccmp  <cases> <out> [--from k]          isolated: C11 spec->impl, decompress TLC's streams, compare with TLC's verdict
 //!   fuzzgen <seeds.ndjson> <cases.ndjson>     C11 impl->spec: corruptions of valid streams + random bytes
 //!   declog  <cases> <out> [--from k]          isolated: decompress, one "dec" event per case
@@ -182,6 +183,15 @@ fn size_event(fmt: &str, input: &[u8], p: usize, pk: usize, list_input: bool) ->
            "input": if list_input { bytes_to_json(input) } else { json!([]) }, "ok": ok, "clen": clen, "msg": msg})
 }
 
+/// one periodic size event, regenerated from (seed, fmt, p, pk, n) - used to replay a recorded C10 violation
+fn cmd_sizeone(fmt: &str, p: usize, pk: usize, n: usize, out_path: &str) {
+    let mut rng = Rng::new(seed_from_env() ^ ((p as u64) << 20) ^ ((pk as u64) << 40) ^ n as u64);
+    let pat = pattern(&mut rng, p, pk);
+    let mut w = NdWriter::create(out_path);
+    w.put(&size_event(fmt, &periodic(&pat, n), p, pk, false));
+    w.finish();
+}
+
 fn cmd_size(out_path: &str) {
     let quick = tier_is_quick();
     let seed = seed_from_env();
@@ -254,24 +264,49 @@ fn cmd_size(out_path: &str) {
 }
 
 // ------------------------------------------------------------------------------------------------ C11 spec -> impl
+struct GenCase {
+    stream: Vec<u8>,
+    expect: Vec<u8>,
+    entries: Vec<(String, String)>, // (entry, cls)
+}
+
+/// Gen_LZ cases are read line by line into a compact form (thorough tiers carry ~10^8 bytes of JSON numbers).
+fn read_gen_cases(path: &str) -> Vec<GenCase> {
+    use std::io::BufRead;
+    let f = std::fs::File::open(path).unwrap_or_else(|e| usage(&format!("cannot open {}: {}", path, e)));
+    let mut out = Vec::new();
+    for line in std::io::BufReader::new(f).lines() {
+        let line = line.unwrap();
+        if line.trim().is_empty() {
+            continue;
+        }
+        let c: Value = serde_json::from_str(&line).unwrap_or_else(|e| usage(&format!("bad json line in {}: {}", path, e)));
+        out.push(GenCase {
+            stream: json_to_bytes(&c["stream"]),
+            expect: json_to_bytes(&c["expect"]),
+            entries: c["entries"].as_array().expect("entries").iter()
+                .map(|e| (e[0].as_str().unwrap().to_string(), e[1].as_str().unwrap().to_string()))
+                .collect(),
+        });
+    }
+    out
+}
+
 /// cases: {stream, expect, entries: [[entry, cls, why], ...]} as printed by Gen_LZ; one isolated call per
 /// (case, entry) pair, numbered in file order.
 fn cmd_deccmp(cases_path: &str, out_path: &str, from: usize) {
-    let cases = read_ndjson(cases_path);
+    let cases = read_gen_cases(cases_path);
     let mut flat: Vec<Value> = Vec::new();
     for (ci, c) in cases.iter().enumerate() {
-        for ei in 0..c["entries"].as_array().map(|a| a.len()).unwrap_or(0) {
+        for ei in 0..c.entries.len() {
             flat.push(json!({"c": ci, "e": ei}));
         }
     }
-    let streams: Vec<Vec<u8>> = cases.iter().map(|c| json_to_bytes(&c["stream"])).collect();
-    let expects: Vec<Vec<u8>> = cases.iter().map(|c| json_to_bytes(&c["expect"])).collect();
     run_isolated(&flat, from, out_path, |_, f| {
         let ci = f["c"].as_u64().unwrap() as usize;
-        let ent = &cases[ci]["entries"][f["e"].as_u64().unwrap() as usize];
-        let entry = ent[0].as_str().unwrap();
-        let cls = ent[1].as_str().unwrap();
-        let (stream, expect) = (&streams[ci], &expects[ci]);
+        let (entry, cls) = &cases[ci].entries[f["e"].as_u64().unwrap() as usize];
+        let (entry, cls) = (entry.as_str(), cls.as_str());
+        let (stream, expect) = (&cases[ci].stream, &cases[ci].expect);
         let r = decompress(entry, stream);
         let (kind, same, got_len, msg) = match &r {
             Ok(Ok(v)) => ("ok", v == expect, v.len(), String::new()),
@@ -286,6 +321,9 @@ fn cmd_deccmp(cases_path: &str, out_path: &str, from: usize) {
             "open" => kind == "ok" || kind == "err",
             _ => usage("cls: ok|err|okerr|open"),
         };
+        if conforms {
+            return json!({"conforms": true});
+        }
         let got_head: Vec<u8> = match &r {
             Ok(Ok(v)) => v.iter().cloned().take(64).collect(),
             _ => vec![],
@@ -391,6 +429,7 @@ fn main() {
         Some("inputs") if a.len() == 3 => cmd_inputs(&a[1], &a[2]),
         Some("comp") if a.len() >= 3 => cmd_comp(&a[1], &a[2], from_arg(a, 3)),
         Some("size") if a.len() == 2 => cmd_size(&a[1]),
+        Some("sizeone") if a.len() == 6 => cmd_sizeone(&a[1], a[2].parse().unwrap(), a[3].parse().unwrap(), a[4].parse().unwrap(), &a[5]),
         Some("deccmp") if a.len() >= 3 => cmd_deccmp(&a[1], &a[2], from_arg(a, 3)),
         Some("fuzzgen") if a.len() == 3 => cmd_fuzzgen(&a[1], &a[2]),
         Some("declog") if a.len() >= 3 => cmd_declog(&a[1], &a[2], from_arg(a, 3)),
